@@ -30,6 +30,9 @@ pub mod fault {
     pub static FIRED: AtomicU64 = AtomicU64::new(0);
     /// class of each callback seen so far (only recorded when RECORD is on)
     pub static KINDS: Mutex<Vec<Cb>> = Mutex::new(Vec::new());
+    /// for Event callbacks: which salsa event (index parallel to KINDS; 255 = not an event)
+    pub static EVKINDS: Mutex<Vec<u8>> = Mutex::new(Vec::new());
+    pub static CUR_EVENT: AtomicU32 = AtomicU32::new(255);
     pub static RECORD: AtomicU32 = AtomicU32::new(0);
     /// bit mask of callback classes that count (others are invisible to the plan)
     pub static MASK: AtomicU32 = AtomicU32::new(u32::MAX);
@@ -43,6 +46,7 @@ pub mod fault {
         FIRED.store(0, SeqCst);
         MASK.store(u32::MAX, SeqCst);
         KINDS.lock().unwrap_or_else(|e| e.into_inner()).clear();
+        EVKINDS.lock().unwrap_or_else(|e| e.into_inner()).clear();
     }
     pub fn arm(k: u64) {
         PANIC_AT.store(k, SeqCst);
@@ -61,6 +65,8 @@ pub mod fault {
         let n = COUNT.fetch_add(1, SeqCst);
         if RECORD.load(SeqCst) != 0 {
             KINDS.lock().unwrap_or_else(|e| e.into_inner()).push(kind);
+            let ek = if kind == Cb::Event { CUR_EVENT.load(SeqCst) as u8 } else { 255 };
+            EVKINDS.lock().unwrap_or_else(|e| e.into_inner()).push(ek);
         }
         if n == PANIC_AT.load(SeqCst) {
             PANIC_AT.store(u64::MAX, SeqCst);
@@ -274,7 +280,13 @@ impl SimDatabase {
         let storage = salsa::Storage::new(Some(Box::new(move |e: salsa::Event| {
             // WillCheckCancellation is emitted on every fetch: not user-visible work, not a fault point
             if !matches!(e.kind, salsa::EventKind::WillCheckCancellation) {
-                s2.push(conv_event(&e));
+                let ev = conv_event(&e);
+                if let Ev::Salsa { k, .. } = &ev {
+                    fault::CUR_EVENT.store(*k as u32, SeqCst);
+                } else {
+                    fault::CUR_EVENT.store(254, SeqCst);
+                }
+                s2.push(ev);
                 fault::cb(Cb::Event);
             }
         })));
